@@ -1,4 +1,5 @@
 import Cgm.Lemmas.AuditCmd
 import Cgm.Props.C01
 import Cgm.Props.C01b
+import Cgm.Props.C01c
 #audit_namespace Cg.C01
